@@ -90,6 +90,8 @@ def leg(pid, tier, seed, verdict):
         t0 = time.time()
         runs, truncated = explore(name, k, limit=4000 if tier == "quick" else 40000)
         recs, lins, byid = [], [], {}
+        allops = {o["op"] for t in p["threads"] for o in t}
+        hist_module = None if "clear" in allops else "Trace_Hist" if allops & {"iter", "retain", "retain_force"} else "Trace_Lin"
         for job, trace, crash in runs:
             if crash is not None:
                 verdict.violation("explore:crash:%s" % name, job["id"], {"job": job, "crash": crash},
@@ -111,9 +113,14 @@ def leg(pid, tier, seed, verdict):
                 raise lib.ToolError("exploration program %s left the specification's alphabet" % name)
             recs.append(pr)
             byid[pr["id"]] = (job, trace)
-            lins.append(project.lin_projection(trace, job))
+            # history monitor: Trace_Lin for per-key programs, Trace_Hist when the program iterates or retains; a program
+            # with clear() has no atomic history to judge (the replay through Flurry.tla and its QuiescentOK / GhostOK do)
+            if hist_module == "Trace_Lin":
+                lins.append(project.lin_projection(trace, job))
+            elif hist_module == "Trace_Hist":
+                lins.append(project.hist_projection(trace, job))
         # one TLC run for all executions of the program (same constants)
-        tf = os.path.join(lib.WORK, "explore_%s_%s.ndjson" % (pid.lower(), name))
+        tf = os.path.join(lib.WORK, "explore_%s_%s.p%d.ndjson" % (pid.lower(), name, os.getpid()))
         with open(tf, "w") as f:
             for r in recs:
                 f.write(json.dumps(r) + "\n")
@@ -131,12 +138,126 @@ def leg(pid, tier, seed, verdict):
             verdict.violation("explore:step:%s" % name, rid, {"job": job2, "at": d.get("at"), "model": d.get("model"), "invariant": d.get("invariant")},
                               "program %s, schedule %s: the execution is not a behaviour of Flurry.tla (event %s; model: %s; invariant: %s)"
                               % (name, list(trace["schedule"])[:80], d.get("at"), d.get("model"), d.get("invariant")))
-        lv = lib.validate_traces("Trace_Lin", lins, "explore_lin", workers=4, timeout=1800)
+        lv = lib.validate_traces(hist_module, lins, "explore_lin", workers=4, timeout=1800) if hist_module else {"accepted": set(), "rejected": []}
         for rid in lv["rejected"][:5]:
             job, trace = byid[rid]
             job2 = dict(job, sched={"kind": "list", "steps": trace["schedule"], "sticky": True})
-            verdict.violation("explore:lin:%s" % name, rid, {"job": job2}, "program %s, schedule %s: the history is not linearizable" % (name, list(trace["schedule"])[:80]))
+            verdict.violation("explore:hist:%s" % name, rid, {"job": job2}, "program %s, schedule %s: the history is rejected by %s" % (name, list(trace["schedule"])[:80], hist_module))
         cov[name] = {"forced_switches_up_to": k, "schedules_executed": len(runs), "truncated": truncated, "accepted_by_trace_flurry": len(acc),
-                     "linearizable": len(lv["accepted"]), "rejected": len(rej) + len(lv["rejected"]), "tlc_states": r["states"],
+                     "history_monitor": hist_module or "none (clear)", "histories_accepted": len(lv["accepted"]), "rejected": len(rej) + len(lv["rejected"]), "tlc_states": r["states"],
+                     "longest_schedule": max([len(t["schedule"]) for _, t, c in runs if t] or [0]), "wall_s": round(time.time() - t0, 1)}
+    return cov
+
+
+# ------------------------------------------------------------------------------------------
+# tree bins: the same bounded-exhaustive exploration, judged by the history / structure / lock / life-cycle monitors
+# (tree bins are outside Flurry.tla's replay, see DESIGN 5.3a)
+
+def _tree_pre(n=10):
+    return [_ins(k, 100 + k) for k in range(1, n + 1)]
+
+
+TREE_PROGRAMS = {
+    # 10 colliding keys in bin 7 of a 64-bin table (a tree bin); names: what the two threads do
+    "tree_remove_vs_get": dict(pre=_tree_pre(), threads=[[{"op": "remove", "k": 4}], [{"op": "get", "k": 7}, {"op": "get", "k": 4}]], props={"C01", "C06", "C11", "C12"}),
+    "tree_insert_vs_get": dict(pre=_tree_pre(), threads=[[_ins(11, 211)], [{"op": "get", "k": 11}, {"op": "get_key_value", "k": 3}]], props={"C01", "C06", "C11"}),
+    "tree_insert_vs_remove": dict(pre=_tree_pre(), threads=[[_ins(11, 211)], [{"op": "remove", "k": 2}]], props={"C01", "C06", "C11", "C03"}),
+    "tree_untreeify_vs_insert": dict(pre=_tree_pre(9) + [{"op": "remove", "k": k} for k in (9, 8, 7, 6, 5)],
+                                     threads=[[{"op": "remove", "k": 1}, {"op": "remove", "k": 2}], [_ins(11, 211), {"op": "get", "k": 3}]], props={"C01", "C06", "C03", "C05"}),
+    "tree_compute_vs_replace": dict(pre=_tree_pre(), threads=[[{"op": "compute", "k": 5, "f": "inc", "n": 211}], [_ins(5, 212, 2, 3)]], props={"C08", "C01"}),
+    "tree_iter_vs_remove": dict(pre=_tree_pre(), threads=[[{"op": "iter"}], [{"op": "remove", "k": 3}, _ins(12, 212)]], props={"C07", "C12"}),
+    "tree_retain_vs_replace": dict(pre=_tree_pre(), threads=[[{"op": "retain", "f": "even", "keys": [], "n": 0}], [_ins(3, 212, 2, 1)]], props={"C13"}),
+}
+
+
+def tree_job_of(name, jid):
+    p = TREE_PROGRAMS[name]
+    h = [7] * 16
+    return {"id": jid, "cfg": "explore-" + name, "kind": "map", "pin": False, "scope": "op", "hasher": {"kind": "table", "table": h},
+            "cap": 42, "batch": 1, "prefix": json.loads(json.dumps(p["pre"])), "threads": json.loads(json.dumps(p["threads"])),
+            "sched": {"kind": "list", "steps": [], "sticky": True}, "finals": list(range(1, 13)), "rec": ["step", "site", "alts", "snap", "mem"],
+            "budget": 200000}
+
+
+def explore_tree(name, k, limit=20000):
+    nth = len(TREE_PROGRAMS[name]["threads"])
+    seen = {}
+    level = [[]]
+    depth = 0
+    n = 0
+    truncated = False
+    while level and depth <= k:
+        jobs = []
+        for pre in level:
+            j = tree_job_of(name, "y%s-%06d" % (name[5:11], n))
+            n += 1
+            j["sched"] = {"kind": "list", "steps": pre, "sticky": True}
+            jobs.append(j)
+        res = lib.run_jobs(jobs, "exploret", procs=8, timeout=3000)
+        nxt = []
+        for job, trace, crash in res:
+            if crash is not None:
+                seen[("crash", job["id"])] = (job, None, crash)
+                continue
+            S = tuple(trace["schedule"])
+            if S in seen:
+                continue
+            seen[S] = (job, trace, None)
+            pre = job["sched"]["steps"]
+            alts = trace.get("alts", [])
+            if depth < k:
+                for i in range(len(pre), min(len(S), len(alts))):
+                    for u in range(nth):
+                        if (alts[i] >> u) & 1 and u != S[i]:
+                            nxt.append(list(S[:i]) + [u])
+        if len(seen) + len(nxt) > limit:
+            nxt = nxt[:max(0, limit - len(seen))]
+            truncated = True
+        level = nxt
+        depth += 1
+    return list(seen.values()), truncated
+
+
+def tree_leg(pid, tier, seed, verdict):
+    cov = {}
+    for name, p in TREE_PROGRAMS.items():
+        if pid not in p["props"]:
+            continue
+        k = 1 if tier == "quick" else 2
+        t0 = time.time()
+        runs, truncated = explore_tree(name, k, limit=1500 if tier == "quick" else 12000)
+        hists, rbs, tls, rcs, byid = [], [], [], [], {}
+        for job, trace, crash in runs:
+            if crash is not None:
+                verdict.violation("exploretree:crash:%s" % name, job["id"], {"job": job, "crash": crash},
+                                  "program %s: the crate crashed/hung under schedule %s (%s)" % (name, job["sched"]["steps"], str(crash)[:200]))
+                continue
+            job2 = dict(job, sched={"kind": "list", "steps": trace["schedule"], "sticky": True})
+            panics = [e for e in trace["ev"] if e.get("e") == "thread_panic" or (e.get("e") == "ret" and e.get("panic"))]
+            if panics or trace["outcome"] != "Done":
+                verdict.violation("exploretree:%s:%s" % ("panic" if panics else trace["outcome"], name), job["id"], {"job": job2, "panics": panics[:3]},
+                                  "program %s, schedule %s: %s" % (name, list(trace["schedule"])[:60], ("panic " + str(panics[0])[:200]) if panics else "run ends " + trace["outcome"]))
+                continue
+            byid[trace["id"]] = job2
+            hists.append(project.hist_projection(trace, job))
+            rb = project.rb_projection(trace, job)
+            if rb["ev"]:
+                rbs.append(rb)
+            tl = project.treelock_projection(trace, job)
+            if tl["ev"]:
+                tls.append(tl)
+            rcs.append(project.reclaim_projection(trace, job))
+        rej = 0
+        for module, traces, what in (("Trace_Hist", hists, "history"), ("Trace_RB", rbs, "tree structure"), ("Trace_TreeLock", tls, "lock protocol"),
+                                     ("Trace_Reclaim", rcs, "object life cycle")):
+            if module == "Trace_Hist" and pid in ("C06",):
+                pass
+            v = lib.validate_traces(module, traces, "exploret_" + module[6:].lower(), workers=6, timeout=3000, chunk=800)
+            rej += len(v["rejected"])
+            for rid in v["rejected"][:3]:
+                verdict.violation("exploretree:%s:%s" % (module, name), rid, {"job": byid.get(rid)},
+                                  "program %s, schedule %s: the %s is rejected by %s" % (name, (byid.get(rid) or {}).get("sched", {}).get("steps", [])[:80], what, module))
+        cov[name] = {"forced_switches_up_to": k, "schedules_executed": len(runs), "truncated": truncated, "rejected": rej,
+                     "monitors": ["Trace_Hist", "Trace_RB", "Trace_TreeLock", "Trace_Reclaim"],
                      "longest_schedule": max([len(t["schedule"]) for _, t, c in runs if t] or [0]), "wall_s": round(time.time() - t0, 1)}
     return cov
